@@ -9,6 +9,7 @@
 #include <poll.h>
 #include <fcntl.h>
 #include <netdb.h>
+#include <arpa/inet.h>
 #include <sys/time.h>
 #include <sys/socket.h>
 #include <sys/wait.h>
@@ -46,7 +47,14 @@ int __wrap_regexec(const regex_t *preg, const char *s, size_t nmatch, regmatch_t
 #define VFD0 1000          /* clients 1000.., device sockets 2000.. */
 #define DFD0 2000
 #define MAXFD 4096
-static int nacc = 0, nsock = 0, k_acc = 0, k_connect = 0, k_soerr = 0; static long k_hup = -1; static int k_wstat = SIGTERM;   /* how a reaped coprocess ended: raw wait status (W<n> in the op) */
+static int nacc = 0, nsock = 0, k_acc = 0; static long k_hup = -1; static int k_wstat = SIGTERM;   /* how a reaped coprocess ended: raw wait status (W<n> in the op) */
+/* connect() answers and SO_ERROR answers of one pass: a string of digits, one per call *of one device* (every device reads the
+   string from its start: the answers belong to the peer, not to the order in which the daemon visits its devices), the last
+   digit repeating - so a single digit is the answer to every call of the pass, as it used to be */
+#define MAXDEVS 16
+static char k_con[64] = "0", k_soe[64] = "0"; static int n_con[MAXDEVS], n_soe[MAXDEVS];
+static int devix_of_fd(int fd);
+static int k_ans(const char *s, int *n, int fd){ int ix = devix_of_fd(fd); int len = strlen(s); int i = n[ix]++; if (i >= len) i = len - 1; return len > 0 ? s[i] - '0' : 0; }
 static struct { int rev, rk, cap, len, off, reads, readres, wlen, werr, wblock, writes, nonblock, rblock; unsigned char data[4096], *w; } K[MAXFD];
 #define WMAX (1 << 21)      /* what one descriptor can take in one pass: allocated on first use */
 #include <sys/mman.h>
@@ -69,8 +77,26 @@ int __wrap_kill(pid_t pid, int sig){ printf("Y kill %d %d\n", (int)pid, sig); re
    a child that is never waited for) */
 pid_t __wrap_waitpid(pid_t pid, int *wstat, int opt){ if (opt & WNOHANG) { printf("Y waitpid-nohang %d\n", (int)pid); return 0; } printf("Y waitpid %d\n", (int)pid); if (wstat) *wstat = k_wstat; return pid; }
 int __wrap_setsockopt(int fd, int l, int o, const void *v, socklen_t n){ return 0; }
-int __wrap_connect(int fd, const struct sockaddr *a, socklen_t n){ printf("Y connect %d%s\n", k_connect, (!KK(fd)->nonblock) ? " BLOCKS" : ""); if (k_connect == 0) return 0; errno = k_connect == 1 ? EINPROGRESS : ENETUNREACH; return -1; }
-int __wrap_getsockopt(int fd, int l, int o, void *v, socklen_t *n){ printf("Y soerr %d\n", k_soerr); *(int *)v = k_soerr ? ECONNREFUSED : 0; return 0; }
+int __wrap_connect(int fd, const struct sockaddr *a, socklen_t n){ int k = k_ans(k_con, n_con, fd); printf("Y connect %d%s\n", k, (!KK(fd)->nonblock) ? " BLOCKS" : "");
+    /* harness-only line (not compared): which device, which of its addresses (127.0.0.1 + index); an attempt (tcp_connect) begins at index 0 */
+    if (a && a->sa_family == AF_INET) printf("I connect %d %d\n", devix_of_fd(fd), (int)((ntohl(((const struct sockaddr_in *)a)->sin_addr.s_addr) & 0xff) - 1)); if (k == 0) return 0; errno = k == 1 ? EINPROGRESS : ENETUNREACH; return -1; }
+int __wrap_getsockopt(int fd, int l, int o, void *v, socklen_t *n){ int k = k_ans(k_soe, n_soe, fd); printf("Y soerr %d\n", k); *(int *)v = k ? ECONNREFUSED : 0; return 0; }
+/* name resolution: `multiN` (N = 2..4) has N addresses 127.0.0.1 .. 127.0.0.N; every other name is left to the real resolver */
+int __real_getaddrinfo(const char *node, const char *service, const struct addrinfo *hints, struct addrinfo **res);
+void __real_freeaddrinfo(struct addrinfo *res);
+static struct addrinfo *ours[64]; static int nours = 0;
+int __wrap_getaddrinfo(const char *node, const char *service, const struct addrinfo *hints, struct addrinfo **res){
+    if (node && !strncmp(node, "multi", 5) && node[5] >= '2' && node[5] <= '4' && !node[6]) {
+        int n = node[5] - '0'; struct addrinfo *head = NULL, **tail = &head;
+        for (int i = 0; i < n; i++) { struct addrinfo *ai = calloc(1, sizeof *ai); struct sockaddr_in *sa = calloc(1, sizeof *sa);
+            sa->sin_family = AF_INET; sa->sin_port = htons(service ? atoi(service) : 0); sa->sin_addr.s_addr = htonl(0x7f000001u + i);
+            ai->ai_family = AF_INET; ai->ai_socktype = SOCK_STREAM; ai->ai_addrlen = sizeof *sa; ai->ai_addr = (struct sockaddr *)sa; *tail = ai; tail = &ai->ai_next; }
+        if (nours < 64) ours[nours++] = head;
+        *res = head; return 0; }
+    return __real_getaddrinfo(node, service, hints, res); }
+void __wrap_freeaddrinfo(struct addrinfo *res){
+    for (int i = 0; i < nours; i++) if (ours[i] == res) { ours[i] = ours[--nours]; while (res) { struct addrinfo *nx = res->ai_next; free(res->ai_addr); free(res); res = nx; } return; }
+    __real_freeaddrinfo(res); }
 int __wrap_fcntl(int fd, int cmd, long arg){ if (fd >= VFD0) { if (cmd == F_GETFL) return KK(fd)->nonblock ? O_NONBLOCK : 0; if (cmd == F_SETFL) KK(fd)->nonblock = !!(arg & O_NONBLOCK); return 0; } return __real_fcntl(fd, cmd, arg); }
 int __wrap_close(int fd){ if (fd >= VFD0) { printf("Y close %d\n", fd); return 0; } return __real_close(fd); }
 ssize_t __wrap_read(int fd, void *b, size_t n){ if (fd < VFD0) return __real_read(fd, b, n);
@@ -110,6 +136,12 @@ int __wrap_poll(struct pollfd *fds, nfds_t n, int tmo){ int r = 0;
         fds[i].revents = f; if (f) r++; }
     return r; }
 
+static int devix_of_fd(int fd){ int ix = 0; if (!dev_getdevices()) return 0;
+    ListIterator di = list_iterator_create(dev_getdevices()); Device *dev; int found = 0;
+    while ((dev = list_next(di))) { if (dev->fd == fd) { found = 1; break; } ix++; }
+    list_iterator_destroy(di); return (found && ix < MAXDEVS) ? ix : 0; }
+static int naddrs(struct addrinfo *a){ int n = 0; for (; a; a = a->ai_next) n++; return n; }
+static int curix(TcpDev *tcp){ int i = 0; for (struct addrinfo *a = tcp->addrs; a; a = a->ai_next, i++) if (a == tcp->cur) return i; return -1; }
 static void dump_stmts(List l){
     ListIterator it = list_iterator_create(l); Stmt *s;
     while ((s = list_next(it))) {
@@ -146,7 +178,7 @@ static void dump(struct timeval *tv){
     list_iterator_destroy(it);
     { ListIterator di = list_iterator_create(dev_getdevices()); Device *dev; int ix = 0;
       while ((dev = list_next(di))) { int istcp = dev->connect == tcp_connect; TcpDev *tcp = (TcpDev *)dev->data;
-        printf("O dev %d conn %d %d fd %d cur %d retry %d telnet %d\n", ix, (int)dev->connect_state, (int)dev->logged_in, dev->fd, istcp ? tcp->cur != NULL : 1, dev->retry_count, istcp ? (int)tcp->tstate : 0);
+        printf("O dev %d conn %d %d fd %d cur %d retry %d telnet %d\n", ix, (int)dev->connect_state, (int)dev->logged_in, dev->fd, istcp ? curix(tcp) : 0, dev->retry_count, istcp ? (int)tcp->tstate : 0);
         int m = cbuf_peek(dev->to, tb, sizeof tb); if (m < 0) m = 0; printf("O dev %d to ", ix); hexout(tb, m); printf("\n");
         m = cbuf_peek(dev->from, tb, sizeof tb); if (m < 0) m = 0; printf("O dev %d from ", ix); hexout(tb, m); printf("\n");
         printf("O dev %d queue", ix); { ListIterator i2 = list_iterator_create(dev->acts); Action *a; while ((a = list_next(i2))) printf(" %d:%d", a->com, a->client_id); list_iterator_destroy(i2); } printf("\n");
@@ -176,7 +208,7 @@ static int last_op = 0;         /* 0: nothing yet, 'I', 'P' */
 static int signalled = 0;
 #define EACHK(i) for (int i = 0; i < MAXFD; i++) { if (i >= nacc && i < DFD0 - VFD0) { i = DFD0 - VFD0 - 1; continue; } if (i >= DFD0 - VFD0 + 1000 + 2*npair) break; if (i >= DFD0 - VFD0 + nsock && i < DFD0 - VFD0 + 1000) { i = DFD0 - VFD0 + 999; continue; }
 
-/* read the next op and install the kernel's answers for the pass it describes.  I now connect soerr | P now acc connect soerr fd:rev:rk:hex:cap ... |
+/* read the next op and install the kernel's answers for the pass it describes (connect, soerr: digit strings, see k_ans).  I now connect soerr | P now acc connect soerr fd:rev:rk:hex:cap ... |
    Q [now acc connect soerr fd:...] : a termination signal arrives while the daemon sleeps in poll (with whatever else is ready) */
 static int read_op(void){
     if (!fgets(line, sizeof line, stdin)) { fflush(stdout); _exit(0); }
@@ -189,7 +221,7 @@ static int read_op(void){
     char *tok = strtok(line + 1, " \n");
     if (tok) { long now = atol(tok); vt_us = 1000000000L + now;
         if (op != 'I') { tok = strtok(NULL, " \n"); k_acc = atoi(tok); }
-        tok = strtok(NULL, " \n"); k_connect = atoi(tok); tok = strtok(NULL, " \n"); k_soerr = atoi(tok);
+        tok = strtok(NULL, " \n"); snprintf(k_con, sizeof k_con, "%s", tok); tok = strtok(NULL, " \n"); snprintf(k_soe, sizeof k_soe, "%s", tok); memset(n_con, 0, sizeof n_con); memset(n_soe, 0, sizeof n_soe);
         while ((tok = strtok(NULL, " \n"))) { int fd, rev, rk, cap; static char hex[8300];
             if (tok[0] == 'H') { k_hup = atol(tok + 1); vt_us -= k_hup; continue; }
             if (tok[0] == 'W') { k_wstat = atoi(tok + 1); continue; }    /* H<d>: the sleep is interrupted by SIGHUP d us after it began; `now` is the time poll finally returns */
@@ -221,6 +253,7 @@ static void harness_cli_start(bool use_stdio){
     { ListIterator di = list_iterator_create(dev_getdevices()); Device *dev;
       while ((dev = list_next(di))) {
         printf("DEV "); hexout((unsigned char*)dev->name, strlen(dev->name)); printf(" %d\n", dev->connect == tcp_connect ? 0 : 1);
+        if (dev->connect == tcp_connect) printf("NA %d\n", naddrs(((TcpDev *)dev->data)->addrs));
         printf("T %ld\n", (long)dev->timeout.tv_sec*1000000L + dev->timeout.tv_usec);
         printf("SPEC "); hexout((unsigned char*)dev->name, strlen(dev->name)); printf(" "); hexout((unsigned char*)dev->specname, strlen(dev->specname)); printf("\n");
         printf("PP %ld\n", (long)dev->ping_period.tv_sec*1000000L + dev->ping_period.tv_usec);
